@@ -240,8 +240,30 @@ HAND_EXTRA = [
 ]
 
 
+# blocks whose text the analysis must not look into (raw, comment, doc), with every whitespace-control combination on both of their tags,
+# padded and unpadded, around text that looks like tags
+OPAQUE = [("raw", "endraw"), ("comment", "endcomment"), ("doc", "enddoc")]
+OPAQUE_INNER = ["{% if a %}", "{% else %}", "{% frob %}", "{% endif %}", "{% for i in xs %}", "{% endfor %}{% endcase %}", "{% if a %}x{% else %}", "{% block b %}", "{% when 1 %}",
+                "{% break %}", "{% if", "%}", "{% liquid\n if a\n%}", "text only", "Usage: {% if product %}...\n {% endunless %}", "{%- elsif x -%}", "{% endblock %}{% endmacro %}"]
+
+
+def opaque_cases():
+    i = 0
+    for (o, c), inner in itertools.product(OPAQUE, OPAQUE_INNER):
+        for f in itertools.product(("", "-"), repeat=4):
+            for pad in (" ", ""):
+                i += 1
+                src = "{%" + f[0] + pad + o + pad + f[1] + "%}" + inner + "{%" + f[2] + pad + c + pad + f[3] + "%}"
+                if i % 3 == 0:
+                    src = "{% if a %} " + src + " {% endif %}"
+                yield {"source": src, "extra": bool(i % 2)}
+
+
 def cases(ctx: core.Ctx):
     rng = ctx.rng("cases")
+    for gi, c in enumerate(opaque_cases()):
+        if gi % ctx.nshards == ctx.shard:
+            yield c
     for s in HAND:
         yield {"source": s, "extra": False}
         yield {"source": s, "extra": True}
